@@ -218,6 +218,26 @@ def sampling(tier, rng, rep):
             c2e, r2e = Ecc.circle_parameters()
             if not np.all(np.abs(c2e - ce) <= 1e-6 * (1 + np.abs(ce))) or not np.all(np.abs(r2e - re_) <= 1e-6 * (1 + re_)) or not np.array_equal(Ecc.center_inside(), E.center_inside()):
                 rep.fail("double_complement", "of a Moebius image", {**inp, "M_re": M.real.tolist(), "M_im": M.imag.tolist()}); return
+            # coordinates given as integers (lists of Python ints, int64 arrays): the same points as for the float packaging
+            for coords_, data_ in (("real_affine", [3, 4]), ("real_affine", [-2, 1]), ("spherical", [1, 0, 0]), ("spherical", [0, -1, 0]), ("cx_affine", 2)):
+                ref_ = cp.CP1Point(np.array(data_, dtype=float) if coords_ != "cx_affine" else complex(data_), coords=coords_).proj_data
+                for pk_, conv_ in (("list_of_ints", lambda d_: d_), ("int64_array", lambda d_: np.array(d_, dtype=np.int64)), ("int32_array", lambda d_: np.array(d_, dtype=np.int32))):
+                    try:
+                        got_ = cp.CP1Point(conv_(data_), coords=coords_).proj_data
+                    except (TypeError, ValueError):
+                        continue
+                    cr_ = got_[0] * ref_[1] - got_[1] * ref_[0]
+                    if not (np.all(np.isfinite(got_)) and np.any(got_ != 0) and abs(cr_) <= 1e-12 * max(1.0, np.max(np.abs(got_)) * np.max(np.abs(ref_)))):
+                        rep.fail("integer_coordinates", f"CP1Point({data_}, coords={coords_!r}) given as {pk_}: {got_.tolist()} vs {ref_.tolist()}", {"coords": coords_, "data": data_, "packaging": pk_}); return
+            for ctr_, rad_ in (([2, 1], 1), ([0, -3], 2)):
+                Df_ = cp.CP1Disk(np.array([complex(*ctr_)]), np.array([float(rad_)]))
+                try:
+                    Di_ = cp.CP1Disk(np.array([ctr_], dtype=np.int64), np.array([rad_], dtype=np.int64), center_coords="real_affine")
+                except (TypeError, ValueError):
+                    continue
+                (c1_, r1_), (c2_, r2_) = Df_.circle_parameters(), Di_.circle_parameters()
+                if not np.all(np.abs(np.asarray(c1_) - np.asarray(c2_)) <= 1e-9) or not np.all(np.abs(np.asarray(r1_) - np.asarray(r2_)) <= 1e-9):
+                    rep.fail("integer_coordinates", f"disk with integer centre {ctr_} and radius {rad_}: reports {c2_}, {r2_}", {"centre": ctr_, "radius": rad_}); return
             # the poles of the sphere (where one of the two conversion formulas degenerates) and points next to them
             for sp_, nm_ in ((np.array([0.0, 0.0, 1.0]), "north"), (np.array([0.0, 0.0, -1.0]), "south")):
                 zz = cp.spherical_to_projective(sp_.copy())
